@@ -193,6 +193,72 @@ func runMem(w *hx.W, t *transcript, f fault) outcome {
 	return outcome{nIn: sv.NRead(), nOut: sv.NWritten()}
 }
 
+// runMemStalledIdler: one client enters IDLE and stops reading (the server's writes to it block)
+// while a second client changes the idled mailbox n times; then both clients go away. Both server
+// connections must end and each session must be closed exactly once.
+func runMemStalledIdler(w *hx.W, n int, abrupt bool) {
+	var closes int32
+	mem := kit.NewMem(kit.MemCfg{Caps: imap.CapSet{imap.CapIMAP4rev1: {}}, Wrap: func(s imapserver.Session) imapserver.Session { return countingSess{s, &closes} }})
+	defer func() {
+		done := make(chan struct{})
+		go func() { mem.Close(); close(done) }()
+		select {
+		case <-done:
+		case <-time.After(20 * time.Second):
+		}
+	}()
+	t0 := time.Date(2023, 3, 1, 12, 0, 0, 0, time.UTC)
+	mem.Populate("INBOX", [][]byte{kit.SimpleMessage("one", "a@b", "x", t0), kit.SimpleMessage("two", "a@b", "y", t0), kit.SimpleMessage("three", "a@b", "z", t0)}, nil)
+	sig := "mem-stalled-idler"
+	desc := fmt.Sprintf("in-memory backend: a client idles and stops reading while another one issues %d STORE commands on the same mailbox, then both disconnect (abrupt=%v)", n, abrupt)
+	end := w.Begin(sig, desc, 300*time.Second)
+	defer end()
+	e := &env{w: w}
+	ca, sa, la := mem.Pipe(nil)
+	a := kit.NewRaw(ca, sa, la)
+	cb, sb, lb := mem.Pipe(nil)
+	b := kit.NewRaw(cb, sb, lb)
+	step := func(r *kit.Raw, sv *vconn.Conn, line string) bool {
+		r.SendStr(line)
+		st := sv.WaitParked(15 * time.Second)
+		r.Take()
+		return st == "parked"
+	}
+	sa.WaitParked(15 * time.Second)
+	sb.WaitParked(15 * time.Second)
+	ok := step(a, sa, "a1 LOGIN user pass\r\n") && step(a, sa, "a2 SELECT INBOX\r\n") && step(a, sa, "a3 IDLE\r\n")
+	sa.StallWrites(true)
+	ok = ok && step(b, sb, "b1 LOGIN user pass\r\n") && step(b, sb, "b2 SELECT INBOX\r\n")
+	stuckAt := -1
+	for i := 0; ok && i < n; i++ {
+		if !step(b, sb, fmt.Sprintf("c%d STORE 1:3 %sFLAGS (kw%d)\r\n", i, []string{"+", "-"}[i%2], i%5)) {
+			stuckAt = i
+			break
+		}
+	}
+	if !abrupt && stuckAt < 0 {
+		step(b, sb, "b9 LOGOUT\r\n")
+	}
+	a.Close()
+	b.Close()
+	deadline := time.Now().Add(30 * time.Second)
+	for (!sa.Closed() || !sb.Closed()) && time.Now().Before(deadline) {
+		time.Sleep(100 * time.Microsecond)
+	}
+	if !sa.Closed() || !sb.Closed() {
+		e.leak(sig, desc, fmt.Sprintf("a server connection is still open after both peers are gone (idler closed=%v, writer closed=%v, writer stopped being answered at STORE #%d)", sa.Closed(), sb.Closed(), stuckAt))
+		return
+	}
+	for atomic.LoadInt32(&closes) < 2 && time.Now().Before(deadline) {
+		time.Sleep(100 * time.Microsecond)
+	}
+	if c := atomic.LoadInt32(&closes); c != 2 {
+		w.Violation("session-close-count@"+sig, fmt.Sprintf("%s: Session.Close called %d times for 2 connections", desc, c), nil)
+	}
+	e.census(sig, desc)
+	w.Class("fault/stalled-idler")
+}
+
 type env struct {
 	w        *hx.W
 	srv      *kit.Server
@@ -704,6 +770,12 @@ func body(w *hx.W) {
 		runMem(w, j.t, j.f)
 		nFault++
 		w.Class("fault/" + j.f.kind + "/" + j.t.name)
+	}
+	for i, n := range []int{5, 30, 70, 150, 400} {
+		if w.Mine(i) {
+			runMemStalledIdler(w, n, i%2 == 0)
+			nFault++
+		}
 	}
 	w.Enumerated(nFault)
 	w.Metric("fault_points", nFault)
